@@ -41,7 +41,7 @@ def check(case, ctx):
         ctx.label("skip:not-plain")
         return
     try:
-        S = specs.build(spec)
+        S = specs.build(spec, share={} if case.get("share") else None)
     except DeclarationError as e:
         ctx.skip_undeclarable(None, e)
         return
